@@ -15,7 +15,8 @@ PHRASES = [
             "three-valued verdict: equal = proved, atomic or local deviation measured by shared-subterm edit cost = refuted, "
             "rewritten = undecided)"),
     ("R13.", "polynomial normal form of the Bellman expression and masked reductions"),
-    ("R14.", "solver/simulator twin comparison"),
+    ("R14.SIB", "solver/simulator twin comparison"),
+    ("R14.SEGPATH", "must-pass-through rule on the result paths of the segment reducers (every path goes through a segment operation)"),
     ("R15.", "def-use obligations on the simulator loop's value graph"),
     ("R6.", "PRNG-key typestate"),
     ("R5.", "product-layout (repeat/tile/mask) rules"),
@@ -23,10 +24,10 @@ PHRASES = [
     ("R7.", "order-provenance (hash/alphabetical) taint"),
     ("R8.", "effect and alias (freshness) analysis with a positive-control fixture"),
     ("R1.", "import/attribute resolution against the installed sources"),
-    ("R10.", "call-arity and signature-discipline checks"),
+    ("R10.", "call-arity and signature-discipline checks (by-name rebinding at every with_signature site)"),
     ("R11.", "keyword-family algebra over usage classes"),
     ("R17.", "agreement of the index order of the weight function with the axis order of the params template"),
-    ("R16.", "who-may-read rule: Parameter.default is never consulted (with positive control)"),
+    ("R16.", "who-may-read rule: Parameter.default is never consulted, Parameter.kind only inside lcm.functools (with positive controls)"),
     ("R12.", "guard terms interpreted on finite witness sets (continuous and discrete grids, filter parameters) + partial-operation domain check"),
 ]
 
